@@ -38,6 +38,81 @@ def install(m):
     C['math/bits.RotateLeft64'] = lambda m, a: _rotl(m, a[0], a[1], 64)
     C['math/bits.RotateLeft32'] = lambda m, a: _rotl(m, a[0], a[1], 32)
     C['bytes.HasPrefix'] = lambda m, a: _has_prefix(m, a[0], a[1])
+    _install_env(m)
+
+
+# -------------------------------------------------------------- environment: sync, crypto/rand (sequential semantics)
+class FreshReader:
+    """crypto/rand.Reader: every Read fills the whole buffer with fresh arbitrary bytes and never fails (documented contract of the
+    system CSPRNG on the supported platforms); the bytes are new symbolic variables, so nothing may depend on their value"""
+    counter = 0
+
+    def __init__(self, name='csrand'):
+        self.name = name
+
+    def go_has(self, mn):
+        return mn == 'Read'
+
+    def fill(self, m, b):
+        b = concretize_slice(m, b)
+        for i in range(b.len):
+            FreshReader.counter += 1
+            m.store(_elem_ptr(b, i), tm.var('%s_%d' % (self.name, FreshReader.counter), 8))
+        return b.len
+
+    def go_invoke(self, m, mn, args):
+        if mn != 'Read':
+            raise X.Unsupported("crypto/rand.Reader method " + mn)
+        return (self.fill(m, args[0]), None)
+
+
+def _install_env(m):
+    C = m.contracts
+    # One symbolic run is one goroutine: locks are always free.  (Whether unlocked accesses to shared state exist is C20's question and is
+    # answered by the write-set monitor, which sees the stores these locks protect.)
+    for t in ('Mutex', 'RWMutex'):
+        for mn in ('Lock', 'Unlock', 'RLock', 'RUnlock'):
+            C['(*sync.%s).%s' % (t, mn)] = lambda m, a: None
+        C['(*sync.%s).TryLock' % t] = lambda m, a: True
+    done = m.__dict__.setdefault('_once_done', set())
+
+    def once_do(m, a):
+        o = a[0].obj
+        key = (o.id, a[0].path)
+        if key not in done:
+            done.add(key)
+            m.call_value(a[1], [])
+        return None
+    C['(*sync.Once).Do'] = once_do
+    pools = m.__dict__.setdefault('_pools', {})
+
+    def pool_get(m, a):
+        # sequential model: a pool hands back what was put, newest first, else calls New (the runtime may also drop items at any
+        # time, which only makes Get call New more often)
+        key = (a[0].obj.id, a[0].path)
+        items = pools.setdefault(key, [])
+        if items:
+            return items.pop()
+        pool = m.load(a[0])
+        newf = pool[-1]   # struct sync.Pool{noCopy, local, localSize, victim, victimSize, New}
+        if newf is None:
+            return None
+        return m.call_value(newf, [])
+
+    def pool_put(m, a):
+        if a[1] is None:
+            return None
+        key = (a[0].obj.id, a[0].path)
+        pools.setdefault(key, []).append(a[1])
+        m.__dict__.setdefault('pool_puts', []).append((key, a[1]))
+        return None
+    C['(*sync.Pool).Get'] = pool_get
+    C['(*sync.Pool).Put'] = pool_put
+    m.global_init.setdefault('crypto/rand.Reader', lambda mm: X.Iface('stub.csrand', FreshReader()))
+
+    def rand_read(m, a):
+        return (FreshReader().fill(m, a[0]), None)
+    C['crypto/rand.Read'] = rand_read
 
 
 # -------------------------------------------------------------- windows / views
